@@ -179,10 +179,14 @@ http_dial_cancel(nni_aio *aio, void *arg, nng_err rv)
 {
 	nni_http_client *c = arg;
 	nni_mtx_lock(&c->mtx);
-	nni_aio_abort(&c->aio, rv);
 	if (nni_aio_list_active(aio)) {
 		nni_aio_list_remove(aio);
 		nni_aio_finish_error(aio, rv);
+		// The dial in flight serves whoever is first in line; it is
+		// abandoned only when nobody is left waiting for it.
+		if (nni_list_empty(&c->aios)) {
+			nni_aio_abort(&c->aio, rv);
+		}
 	}
 	nni_mtx_unlock(&c->mtx);
 }
